@@ -225,7 +225,7 @@ func (x *X) Sample(s string) { x.sample = s }
 // Tokens chooses an input of at most maxLen tokens from the space
 // (choice 0 at each position is "stop").
 func (x *X) Tokens(sp spaces.Space, maxLen int) []byte {
-	var in []byte
+	in := []byte(sp.Prefix)
 	for i := 0; i < maxLen; i++ {
 		k := x.ChooseFree(len(sp.Tokens) + 1)
 		if k == 0 {
@@ -414,6 +414,9 @@ func (c *Ctx) Inputs(sp spaces.Space, maxLen int, f func(x *X, in []byte)) {
 	doc := fmt.Sprintf("all inputs of <=%d tokens over %d tokens: %s", maxLen, len(sp.Tokens), sp.Doc)
 	if sp.Suffix != "" {
 		doc += fmt.Sprintf(" (every input followed by %q)", sp.Suffix)
+	}
+	if sp.Prefix != "" {
+		doc += fmt.Sprintf(" (every input preceded by %q)", sp.Prefix)
 	}
 	c.Explore(sp.Name, doc, -1, maxLen, func(x *X) {
 		in := x.Tokens(sp, maxLen)
